@@ -314,6 +314,16 @@ def map_insert(ctx, m, key, val):
     return None
 
 
+def nd_allowed(ctx):
+    """bounded deviation: at most opts['nd_budget'] iteration events per path may use a non-canonical order"""
+    b = ctx.opts.get("nd_budget")
+    return b is None or ctx.__dict__.setdefault("_nd_used", 0) < b
+
+
+def nd_spend(ctx):
+    ctx.__dict__["_nd_used"] = ctx.__dict__.get("_nd_used", 0) + 1
+
+
 def map_order(ctx, m):
     """iteration order of a map: sorted maps in order; hash maps in a nondeterministic permutation"""
     n = len(m.entries)
@@ -332,7 +342,11 @@ def map_order(ctx, m):
             rest = rest[:c] + rest[c + 1:]
         out.extend(rest)
         return out
+    if not nd_allowed(ctx):
+        return idx
     c = ctx.choose(2, "hashorder2")
+    if c == 1:
+        nd_spend(ctx)
     return idx if c == 0 else idx[::-1]
 
 
@@ -352,7 +366,11 @@ def perm_choice(ctx, n, label):
             rest = rest[:c] + rest[c + 1:]
         out.extend(rest)
         return out
+    if not nd_allowed(ctx):
+        return idx
     c = ctx.choose(2, label + "2")
+    if c == 1:
+        nd_spend(ctx)
     return idx if c == 0 else idx[::-1]
 
 
